@@ -129,6 +129,7 @@ pub struct Translator {
     pub cur_file: String,
     pub file_is_dispatch: bool,
     pub file_uses_supported_regs: bool,
+    pub frame_items: Vec<(String, usize)>,
 }
 
 pub const REG_NAMES: &[&str] = &[
@@ -161,6 +162,7 @@ impl Translator {
             cur_file: String::new(),
             file_is_dispatch: false,
             file_uses_supported_regs: false,
+            frame_items: Vec::new(),
         };
         t.hand_sigs();
         t
@@ -528,7 +530,7 @@ impl Translator {
             }
             false
         }
-        fn visit(k: usize, fn_texts: &Vec<(String, String)>, names: &Vec<String>, emitted: &mut HashSet<String>, stack: &mut Vec<usize>, out: &mut String) {
+        fn visit(k: usize, fn_texts: &Vec<(String, String)>, names: &Vec<String>, emitted: &mut HashSet<String>, stack: &mut Vec<usize>, out: &mut String, order: &mut Vec<String>) {
             if emitted.contains(&names[k]) || stack.contains(&k) {
                 return;
             }
@@ -537,16 +539,30 @@ impl Translator {
             let body = match fn_texts[k].1.find(":=") { Some(p) => &fn_texts[k].1[p..], None => "" };
             for j in 0..names.len() {
                 if j != k && uses(body, &names[j]) {
-                    visit(j, fn_texts, names, emitted, stack, out);
+                    visit(j, fn_texts, names, emitted, stack, out, order);
                 }
             }
             stack.pop();
             emitted.insert(names[k].clone());
             out.push_str(&fn_texts[k].1);
+            order.push(names[k].clone());
         }
         let mut stack = Vec::new();
+        let mut order: Vec<String> = Vec::new();
         for k in 0..names.len() {
-            visit(k, &fn_texts, &names, &mut emitted, &mut stack, &mut out);
+            visit(k, &fn_texts, &names, &mut emitted, &mut stack, &mut out, &mut order);
+        }
+        for n in order {
+            // only successfully translated functions get a frame lemma
+            let ok = defs.iter().any(|(dn, _, _, ok)| *dn == n && *ok);
+            if ok {
+                let nparams = fn_texts.iter().find(|(fnm, _)| *fnm == n).map(|(_, t)| {
+                    // count "(v_" binders in the header line
+                    let header = t.lines().find(|l| l.starts_with("Definition ")).unwrap_or("");
+                    header.matches("(v_").count()
+                }).unwrap_or(0);
+                self.frame_items.push((n, nparams));
+            }
         }
         (out, defs, nprob)
     }
